@@ -5,6 +5,7 @@ import PyaModel.Generated.TotalTables
 import PyaModel.Core.Tfr
 import PyaModel.Generated.TfrRoutes
 import PyaModel.Generated.FoldSites
+import PyaModel.Generated.FormatRegexC12
 /-!
 # Spec/Total — what C12 demands, as executable predicates, and the exception classes
 
@@ -193,5 +194,10 @@ def pinnedUnguardedFolds : List (String × String × String) :=
    ("value.py", "_HashableValue.can_assign", "f'{other.val!r}'")]
 
 def unguardedFoldsKnown (l : List (String × String × String)) : Bool := l.all pinnedUnguardedFolds.contains
+
+/-- `format_strings._FORMAT_STRING_REGEX` of the pinned tree. The %-template parser built on it
+(`ConversionSpecifier.from_match`: `int(field_width)`, `int(precision[1:])`, …) relies on what the pattern
+guarantees about each group (digits are never empty); an edit of the pattern must re-validate that. -/
+def pinnedFormatRegex : String := "\n    (?P<pre_match>.*?)  # stuff before the match\n    (\n        %  # starting character\n        (?P<mapping_key>\\([^\\)]+\\))?\n        (?P<conversion_flags>[#0\\- +]+)?\n        (?P<field_width>\\*|\\d+)?\n        (?P<precision>\\.(\\*|\\d+))?\n        (?P<length_modifier>[hlL])?\n        (?P<conversion_type>[diouxXeEfFgGcrs%ba])\n    |\n        $  # or until the end of the string\n    )\n"
 
 end Pya.C12
